@@ -27,7 +27,8 @@ produced; an expired wait with gates still parked is exit 2.
 
 Violations are grouped by (bind, flat, local, cause, formula); the signature of a
 class carries `cause` (overtake | remove-shortcut | queue-dedupe | flat-stale-check |
-bindany-superset-skip | inline-call-on-nonlocal-target | stranded-queue | unknown),
+bindany-superset-skip (only when the former target.Is guard is observed) |
+bindany-stale-check | inline-call-on-nonlocal-target | stranded-queue | unknown),
 measured from the recorded trace, so that a known-findings entry can be keyed by
 the mechanism: {"cause": "overtake"} etc.  Anything the trace does not explain by
 one of these mechanisms is "unknown" and is never masked.
@@ -43,12 +44,12 @@ from common import *
 PROP = "C18"
 
 # flags that describe pipes.go / machine.go at the pinned commit (permissive variant)
-CODE = dict(ForwardInOrder=False, AnyExact=True, Dedupe=True, DedupeCounter=False,
+CODE = dict(ForwardInOrder=False, AnyExact=True, AnyFresh=False, Dedupe=True, DedupeCounter=False,
             RemoveShortcut=True, FlatFresh=False, AnyForkRemote=False)
 # every repair applied (strict variant): the formulas hold on the model
-REP = dict(ForwardInOrder=True, AnyExact=True, Dedupe=True, DedupeCounter=True,
+REP = dict(ForwardInOrder=True, AnyExact=True, AnyFresh=True, Dedupe=True, DedupeCounter=True,
            RemoveShortcut=False, FlatFresh=True, AnyForkRemote=True)
-FLAG_ORDER = ["ForwardInOrder", "AnyExact", "DedupeCounter", "RemoveShortcut", "FlatFresh",
+FLAG_ORDER = ["ForwardInOrder", "AnyExact", "AnyFresh", "DedupeCounter", "RemoveShortcut", "FlatFresh",
               "AnyForkRemote", "Dedupe"]
 INVARIANTS = ["FollowsAtQuiescence", "BindAnyMirrors", "SourceNeverBlocked"]
 
@@ -67,9 +68,10 @@ PAIR2 = ("Bind", "BindMany", "Manual")
 
 CONFIGS = {
     "quick": [
-        cfg("nonflat-local-A", maxsrc=4, binds=PAIR1),
+        cfg("nonflat-local-A", maxsrc=4, binds=PAIR2),
+        cfg("nonflat-local-A-named", maxsrc=3, binds=("BindReady", "BindStart")),
         cfg("nonflat-local-A-slow", slow=True, maxsrc=3, binds=("Bind", "BindMany")),
-        cfg("nonflat-local-AB", states="AB", multiops=True, maxsrc=3, binds=PAIR2, sample=400),
+        cfg("nonflat-local-AB", states="AB", multiops=True, maxsrc=3, binds=PAIR2, sample=250),
         cfg("nonflat-local-multiA", multi="A", maxsrc=3, binds=("Bind", "Manual")),
         cfg("nonflat-remote-A", local=False, maxsrc=3, binds=("Bind",)),
         cfg("flat-local-A", flat=True, maxsrc=4, binds=("Manual",)),
@@ -98,8 +100,10 @@ CONFIGS = {
         cfg("flat-remote-AB", flat=True, states="AB", multiops=True, local=False, maxsrc=3,
             binds=("Manual",), sample=4000),
         cfg("any-local-AB", mode="any", states="AB", multiops=True, maxsrc=4, binds=("BindAny",)),
-        cfg("any-local-AB-slow", mode="any", states="AB", multiops=True, slow=True, maxext=1,
-            maxsrc=3, binds=("BindAny",), sample=4000),
+        # BindAny mirrors the WHOLE target: an external mutation of the target is outside
+        # the property's premise, so no `ext` here
+        cfg("any-local-AB-slow", mode="any", states="AB", multiops=True, slow=True, maxext=0,
+            maxsrc=4, binds=("BindAny",), sample=4000),
         cfg("any-remote-AB", mode="any", states="AB", multiops=True, local=False, maxsrc=3,
             binds=("BindAny",)),
     ],
@@ -108,7 +112,7 @@ CONFIGS = {
 
 def verify_bound(c, tier):
     """Burst bound of the verification runs (all interleavings, hist-free view)."""
-    extra = (1 if c["states"] == "A" else 0) if tier == "quick" else (3 if c["states"] == "A" else 1)
+    extra = 0 if tier == "quick" else (3 if c["states"] == "A" else 1)
     return max(c["vmaxsrc"], c["maxsrc"] + extra)
 
 
@@ -249,6 +253,11 @@ def probe_cases():
         # AnyExact
         case("probe-any", "BindAny", ["A", "B"],
              script=[src("add", ["A", "B"]), src("remove", ["B"]), QUIET]),
+        # AnyFresh: a busy target (probe only: an external mutation of a BindAny target is
+        # outside the property's premise; the probe is validated for conformance, not judged)
+        case("probe-anyfresh", "BindAny", ["A", "B"], slow=True,
+             script=[dict(k="ext"), src("add", ["A"]), src("remove", ["A"])]
+             + [dict(k="stepany")] * 4 + [QUIET]),
         # AnyForkRemote
         case("probe-anyremote", "BindAny", ["A", "B"], local=False,
              script=[src("add", ["A", "B"]), QUIET]),
@@ -324,7 +333,7 @@ def rand_cases(rng, n, gated):
             if gated:
                 for _ in range(rng.choice([0, 0, 1, 1, 2])):
                     script.append(dict(k=rng.choice(["relany", "relany", "stepany"]) if slow else "relany"))
-                if slow and rng.random() < 0.15:
+                if slow and rng.random() < 0.15 and bind != "BindAny":
                     script.append(dict(k="ext"))
             else:
                 script.append(dict(k="sleep", us=rng.choice([0, 0, 0, 0, 1, 5, 20, 60])))
@@ -470,8 +479,7 @@ def cause_of(lines, formula):
     if formula in ("SourceNeverBlocked", "SourceNeverCanceled"):
         return "inline-call-on-nonlocal-target"
     init = lines[0]
-    if init["mode"] == "any":
-        return "bindany-superset-skip"
+    anymode = init["mode"] == "any"
     pend = []        # delivered, not yet processed (queue incl. the running one)
     fl = {}          # in flight
     causes = []
@@ -481,6 +489,12 @@ def cause_of(lines, formula):
         if ev == "h":
             if x["fwd"] != "none":
                 fl[x["id"]] = x
+            elif anymode and x.get("chkkind") == "is" and x["chk"] == "true":
+                # the superset guard itself observed: target.Is(states) answered true
+                causes.append("bindany-superset-skip")
+            elif anymode and x["chk"] == "read" and (fl or pend):
+                # the equality guard read the target while an earlier Set was pending
+                causes.append("bindany-stale-check")
             elif x["chk"] == "true" and (fl or pend):
                 causes.append("flat-stale-check")
         elif ev in ("enq", "drop") and x["id"] in fl:
@@ -509,7 +523,8 @@ def cause_of(lines, formula):
         # free runs: the position of a handler's record relative to the target's
         # records is approximate
         causes.append("flat-stale-check")
-    for c in ("remove-shortcut", "queue-dedupe", "flat-stale-check", "overtake", "stranded-queue"):
+    for c in ("bindany-superset-skip", "bindany-stale-check", "remove-shortcut", "queue-dedupe",
+              "flat-stale-check", "overtake", "stranded-queue"):
         if c in causes:
             return c
     return "unknown"
@@ -524,7 +539,7 @@ def schedule_of(lines):
             srcs.append("%s %s" % (x["op"], "+".join(x["states"])))
         elif x["ev"] == "h" and x["fwd"] != "none":
             ids[x["id"]] = "%s %s" % (x["op"], "+".join(x["sts"]))
-        elif x["ev"] == "h" and x["chk"] == "true":
+        elif x["ev"] == "h" and x["chk"] in ("true", "read"):
             dl.append("skip(%s)" % x["h"])
         elif x["ev"] == "ext":
             ids[x["id"]] = "ext"
@@ -574,7 +589,7 @@ def nontrivial_key(lines):
             if x["fwd"] != "none":
                 fl.add(x["id"])
                 maxfl = max(maxfl, len(fl))
-            elif x["chk"] == "true":
+            elif x["chk"] in ("true", "read"):
                 special = True
         elif x["ev"] in ("enq", "drop"):
             fl.discard(x["id"])
@@ -624,7 +639,7 @@ def check(tier):
             for b in c["binds"]:
                 for i, s_ in enumerate(scheds):
                     cases.append(sched_to_case(c, b, s_, "tlc-%s-%d-%s-%d" % (c["name"], ms, b, i)))
-        nr, nf = (260, 1300) if tier == "quick" else (8000, 40000)
+        nr, nf = (260, 1000) if tier == "quick" else (8000, 40000)
         rcases = rand_cases(rng, nr, True)
         fcases = rand_cases(rng, nf, False)
         by_label = {c["label"]: c for c in cases + rcases + fcases}
